@@ -128,6 +128,7 @@ class SymExec:
         self.decide = decide      # optional: test AST -> True / False / None (prunes branches, e.g. for a fixed option value)
         self.watch = set(watch)   # call names whose evaluation is recorded as ("watch", (name, [arg values], node), path)
         self.terminated = False   # a return / raise was executed on every path that reaches here
+        self._watched = set()
 
     def _child(self):
         c = SymExec(self.env, self.decide, self.watch, self.inline_displays)
@@ -200,8 +201,11 @@ class SymExec:
                 return Opaque(f"{render(v)}({args})")
 
             return apply(self.env[n.func.id])
-        if isinstance(n, ast.Call) and dotted(n.func) in self.watch:
-            self.effects.append(("watch", (dotted(n.func), [self.val(a) for a in n.args], n), self.path))
+        if self.watch:
+            for sub in ast.walk(n):
+                if isinstance(sub, ast.Call) and dotted(sub.func) in self.watch and id(sub) not in self._watched:
+                    self._watched.add(id(sub))
+                    self.effects.append(("watch", (dotted(sub.func), [self.val(a) for a in sub.args], sub), self.path))
         return Opaque(self.text(n))
 
     def _flag_loop(self, s):
@@ -273,6 +277,12 @@ class SymExec:
             pass
         elif isinstance(s, ast.For) and self._flag_loop(s):
             pass
+        elif isinstance(s, ast.For):
+            # a loop that is not a flag loop is not followed: what it binds becomes unknown, the loop is recorded
+            for n in ast.walk(s):
+                if isinstance(n, ast.Name) and isinstance(n.ctx, ast.Store):
+                    self.env[n.id] = Opaque(f"<{n.id} after loop>")
+            self.effects.append(("loop", (self.text(s.iter), s), self.path))
         elif isinstance(s, ast.While):
             # an inner loop is not followed: what it may re-bind becomes unknown, the loop itself is recorded
             for n in ast.walk(s):
